@@ -24,7 +24,7 @@ class Convolution2L(ugn.UGen):
     @classmethod
     def ar(cls, input, kernel, trigger=0, frame_size=2048, crossfade=1):
         return cls._multi_new(
-            'audio', input, kernel, trigger, frame_size, int(crossfade))
+            'audio', input, kernel, trigger, frame_size, crossfade)
 
 
 class StereoConvolution2L(ugn.MultiOutUGen):
@@ -34,7 +34,7 @@ class StereoConvolution2L(ugn.MultiOutUGen):
            trigger=0, frame_size=2048, crossfade=1):
         return cls._multi_new(
             'audio', input, kernel_L, kernel_R,
-            trigger, frame_size, int(crossfade))
+            trigger, frame_size, crossfade)
 
     def _init_ugen(self, *inputs):  # override
         self._inputs = inputs
